@@ -774,9 +774,9 @@ class Spy:
 
     def _term(self, key, T, integral):
         if not isinstance(T, torch.Tensor):
-            T = torch.tensor([float(T)])
-        if T.dim() == 0:
-            T = T.reshape(1)
+            T = torch.tensor([[float(T)]])
+        if T.dim() < 2:
+            T = T.reshape(1, -1)
         contrib = (T * self.w[key]).sum(-1, keepdim=True)
         if integral and contrib.dim() == 3:
             contrib = contrib.mean(dim=1, keepdim=True)
@@ -1110,6 +1110,8 @@ def _run_sampler_kind(spec, ctx):
         _check_derivs(report, spy, -1, lambda o, c: net.jac(cols, o, c), kind)
         R = spy.rets[-1].detach().double()
         if R.dim() != 2 or R.shape[0] not in (N, 1):
+            if report.first:        # explained by the routing violations of this call
+                break
             raise AssertionError(f"harness: residual shape {tuple(R.shape)} for {N} rows")
         if kind in ("MeanCondition", "DeepRitzCondition"):
             exp, scale = R.mean(), R.abs().mean()
